@@ -93,8 +93,13 @@ fn on_stuck(stuck: u64) -> ! {
 }
 
 fn process_setup(subscriber: bool, cpu: Option<usize>) {
-    if let Some(c) = cpu {
-        detsim::pin_to_cpu(c);
+    // Every process that executes runs is confined to exactly one CPU (the given one, or the one it happens to be
+    // on): besides keeping the baton-passing threads on one core, this fixes `available_parallelism()` at 1, which
+    // some dependencies size themselves by (the metrics-util registry has that many shards, and its visiting order -
+    // which cell a readout reads first - follows from the shard count).
+    match cpu {
+        Some(c) => detsim::pin_to_cpu(c),
+        None => detsim::pin_to_cpu(unsafe { libc::sched_getcpu() }.max(0) as usize),
     }
     if subscriber {
         install_quiet_subscriber();
@@ -1146,7 +1151,16 @@ fn selftest_determinism(args: &[String]) -> i32 {
         for i in idxs {
             let (which, plan) = make_plan(prop, tier, base, i, chunk).unwrap();
             let rep = run_scenario(scens[which].as_ref(), &plan);
-            println!("{i} {:016x} {:016x} {} {}", rep.outcome.hash, rep.case_sig, rep.outcome.steps, rep.violation.is_some());
+            // also what the run *observed* (the recorded history sample, abstract states, probes and fault counts):
+            // two executions can take the same schedule and still see different data if some source of
+            // nondeterminism sits outside the scheduler (an unseeded hash map, OS randomness, a real clock)
+            let mut states = rep.states.clone();
+            states.sort_unstable(); // (a set: its order carries no information)
+            let observed = hash_value(&json!([rep.sample, states, rep.probes, rep.faults, rep.violation.as_ref().map(|v| (v.class.clone(), v.message.clone()))]));
+            if std::env::var("VERIF_SELFTEST_DUMP").ok().and_then(|s| s.parse::<u64>().ok()) == Some(i) {
+                eprintln!("{}", serde_json::to_string_pretty(&json!([rep.sample, rep.states, rep.probes, rep.faults])).unwrap());
+            }
+            println!("{i} {:016x} {:016x} {} {} {observed:016x}", rep.outcome.hash, rep.case_sig, rep.outcome.steps, rep.violation.is_some());
             if rep.outcome.wedged || rep.tainting {
                 // this process must not run another simulation; the parent resumes in a fresh one
                 println!("TAINTED {i}");
